@@ -51,10 +51,12 @@ ASSUMPTIONS = [
     "rep.element('s0*s1', parse_simple=False) or from the generator matrices "
     "(DESIGN.md C08); rep['s0'] is not demanded",
     "a diagram lists every pair of generators",
-    "diagonalize=True is in domain only when the reference eigenvalues of the "
-    "(symmetric) Cartan matrix / 2 are all >= 1e-6 in modulus; hyperbolic_rep only "
-    "when the reference signature is (d,1) with that margin; tolerances are "
-    "scaled by 1/min|eigenvalue|",
+    "diagonalize=True is in domain when every reference eigenvalue of the "
+    "(symmetric) Cartan matrix / 2 is either >= 1e-6 or <= 1e-11 in modulus (a "
+    "degenerate form, e.g. an affine group, is in domain: the statement says "
+    "'every Coxeter matrix ... diagonalised or not'; the diagonal form then has "
+    "zeros on the kernel); hyperbolic_rep only when the reference signature is "
+    "(d,1) with that margin; tolerances are scaled by 1/min|non-zero eigenvalue|",
     "the order of the basis of a diagonalised representation is not judged (any "
     "diagonal +-1 form of the right signature, negative-first or positive-first)",
     "Cartan matrices passed to cartan_representation are judged only when they "
@@ -162,9 +164,14 @@ def check_generators(run, gens, M, what, tolscale, case, exact_order=False):
 
 
 def sign_forms(sig):
-    """candidate diagonal +-1 forms for a nondegenerate signature."""
-    pos, neg = sig[0], sig[1]
-    return [np.diag([-1.0] * neg + [1.0] * pos), np.diag([1.0] * pos + [-1.0] * neg)]
+    """candidate diagonal forms for a signature (pos, neg, zero, ...): entries
+    +-1, and 0 on the kernel of a degenerate form (affine groups; the order of
+    the basis is not judged there: every arrangement is a candidate)."""
+    pos, neg, zero = sig[0], sig[1], sig[2]
+    if zero == 0:
+        return [np.diag([-1.0] * neg + [1.0] * pos), np.diag([1.0] * pos + [-1.0] * neg)]
+    entries = [-1.0] * neg + [0.0] * zero + [1.0] * pos
+    return [np.diag(p) for p in sorted(set(itertools.permutations(entries)))]
 
 
 def form_residual(gens, S):
@@ -199,8 +206,8 @@ def cartan_domain(C, M, diagonalize):
     if float(np.max(np.abs(C - C.T))) > 1e-12:
         return False, "diagonalize=True with a non-symmetric Cartan matrix", 1.0, None
     sg = ct.signature(C / 2.0, margin=EIG_MARGIN)
-    if sg is None or sg[2] != 0:
-        return False, "diagonalize=True with a (nearly) degenerate form", 1.0, None
+    if sg is None:
+        return False, "diagonalize=True with a nearly degenerate form (eigenvalue in (1e-11, 1e-6))", 1.0, None
     return True, "", scale / sg[3], sg
 
 
@@ -278,8 +285,8 @@ def setup(run):
             fp = run.monitor("form-preserved")
             r = min(form_residual(gens, S) for S in sign_forms(sg))
             fp.judge(r, TOL * tolscale, "form-preserved/%s/%s" % (what, input_class(M)),
-                     "diagonalised representation of %r preserves no diagonal +-1 form of "
-                     "signature (%d,%d)" % (M, sg[0], sg[1]), case)
+                     "diagonalised representation of %r preserves no diagonal +-1 (0 on the "
+                     "kernel) form of signature (%d,%d,%d)" % (M, sg[0], sg[1], sg[2]), case)
 
     def hook_geometric(call):
         fp = run.monitor("form-preserved")
@@ -299,8 +306,8 @@ def setup(run):
                 "workload_case": run.current_case}
         tolscale = 4.0
         if dg:
-            if sg is None or sg[2] != 0:
-                return fp.skip("diagonalize=True with a (nearly) degenerate cosine form")
+            if sg is None:
+                return fp.skip("diagonalize=True with a nearly degenerate cosine form")
             tolscale = 4.0 / sg[3]
         try:
             gens = rep_generators(call.result, list(G.ordered_gens))
@@ -313,7 +320,7 @@ def setup(run):
             r = min(form_residual(gens, S) for S in sign_forms(sg))
             fp.judge(r, TOL * tolscale, "form-preserved/%s/%s" % (what, input_class(M)),
                      "diagonalised geometric representation of %r preserves no diagonal +-1 "
-                     "form of signature (%d,%d)" % (M, sg[0], sg[1]), case)
+                     "(0 on the kernel) form of signature (%d,%d,%d)" % (M, sg[0], sg[1], sg[2]), case)
         else:
             r = form_residual(gens, B)
             fp.judge(r, TOL * tolscale, "form-preserved/%s/%s" % (what, input_class(M)),
@@ -336,8 +343,8 @@ def setup(run):
         sg = ct.signature(ct.cosine_matrix(M), margin=EIG_MARGIN)
         tolscale = 4.0
         if dg:
-            if sg is None or sg[2] != 0:
-                return cd.skip("diagonalize=True with a (nearly) degenerate cosine form")
+            if sg is None:
+                return cd.skip("diagonalize=True with a nearly degenerate cosine form")
             tolscale = 4.0 / sg[3]
         case = {"via": "canonical_representation", "coxeter_matrix": M, "diagonalize": dg,
                 "workload_case": run.current_case}
@@ -620,7 +627,9 @@ def study_group(run, rng, M, route, sample=False):
     ctype = ct.coxeter_type(Mo)
     B = ct.cosine_matrix(Mo)
     sg = ct.signature(B, margin=EIG_MARGIN)
-    nondeg = sg is not None and sg[2] == 0
+    # (name kept: 'diagonalisable by the contract' = no eigenvalue in the ambiguous band;
+    #  exactly degenerate forms - affine groups - are in domain, see ASSUMPTIONS)
+    nondeg = sg is not None
     case = dict(desc, coxeter_matrix=Mo, type=ctype, rank=n)
     run.current_case = case
     sig = (n, ctype, input_class(Mo), desc["route"], desc["naming"], desc.get("packaging", "-"))
@@ -646,7 +655,7 @@ def study_group(run, rng, M, route, sample=False):
     if nondeg:
         run.current_case = dict(case, diagonalize=True)
         geod = G.geometric_representation(diagonalize=True)
-        run.note_class(*sig, "geometric-diagonalised", sg[0], sg[1])
+        run.note_class(*sig, "geometric-diagonalised", sg[0], sg[1], "kernel:%d" % sg[2])
         relation_words(run, geod, Mo, names, "geometric_representation(diagonalize)",
                        4.0 / sg[3], dict(case, diagonalize=True), rng)
     run.current_case = case
@@ -728,12 +737,12 @@ def study_group(run, rng, M, route, sample=False):
             if Mo[i][j] == 0 and rng.random() < 0.5:
                 Cs[i, j] = Cs[j, i] = -float(rng.uniform(2.0, 5.0))
     sgs = ct.signature(Cs / 2.0, margin=EIG_MARGIN)
-    if sgs is not None and sgs[2] == 0:
+    if sgs is not None:
         order = ["signed", "minkowski"][int(rng.integers(0, 2))]
         dcase = dict(case, cartan_matrix=Cs, diagonalize=True, order_eigenvalues=order)
         run.current_case = dcase
         drep = G.cartan_representation(Cs, diagonalize=True, order_eigenvalues=order)
-        run.note_class(*sig, "cartan-symmetric-diagonalised", order, sgs[0], sgs[1])
+        run.note_class(*sig, "cartan-symmetric-diagonalised", order, sgs[0], sgs[1], "kernel:%d" % sgs[2])
         relation_words(run, drep, Mo, names, "cartan_representation(diagonalize)",
                        max(1.0, float(np.max(np.abs(Cs)))) ** 2 / sgs[3], dcase, rng)
 
